@@ -466,8 +466,15 @@ func presetResult(r rdesc, mode int) (reflect.Value, string) {
 		}
 		return reflect.ValueOf(MyErr{Code: 3}), "error"
 	case "oddchan":
-		// a non-nil channel of the odd type (nothing is ever sent on it by the probe)
-		return reflect.MakeChan(reflect.ChanOf(reflect.BothDir, r.t.Elem()), 1).Convert(r.t), "odd-channel"
+		// a non-nil channel of the odd type on which nothing is ever sent; when its element type is error itself
+		// (a send-only channel, a named channel type) the probe closes it before returning it: the command has
+		// completed without an error, and a bridge that accepted the signature must resume the dialogue
+		ch := reflect.MakeChan(reflect.ChanOf(reflect.BothDir, r.t.Elem()), 1)
+		if r.t.Elem() == errType {
+			ch.Close()
+			return ch.Convert(r.t), "nil"
+		}
+		return ch.Convert(r.t), "odd-channel"
 	case "chan":
 		switch mode % 3 {
 		case 0:
@@ -881,11 +888,16 @@ func (p c16) Run(c *core.Ctx) {
 			return
 		}
 		oddChan := len(s.results) == 1 && s.results[0].class == "oddchan"
-		if oddChan {
-			// nothing is prescribed for such a result beyond "the bridge never panics": the command may fail,
-			// or wait for a completion that the probe never reports
+		if oddChan && s.results[0].t.Elem() != errType {
+			// a channel of a concrete error type: nothing is prescribed for such a result beyond "the bridge never
+			// panics" (what a close, or the zero value received from it, means is not settled): the command may
+			// fail, or wait for a completion that the probe never reports
 			c.Feature("odd-channel-result-survived")
 			continue
+		}
+		if oddChan {
+			// chan<- error, named chan error: accepted means callable - the closed channel is a completion
+			c.Feature("accepted-odd-channel-of-error-must-complete")
 		}
 		if o.Kind == mon.KWaiting {
 			c.Violate("a command whose handler returned never completed", d)
